@@ -26,7 +26,8 @@ EXPLANATION = (
 
 FACADE = {'facade': {'myokit': True}, 'diffcheck': False}
 
-OPS = ['Ad', 'Ai', 'D1', 'D2', 'O1', 'O2', 'RP', 'RO', 'S+', 'Ss', 'S-', 'C']
+OPS = ['Ad', 'Ai', 'D1', 'D2', 'D3', 'O1', 'O2', 'RP', 'RO', 'S+', 'Ss', 'S-',
+       'C']
 TIMES = [0.5, 2.0]
 
 
@@ -44,7 +45,7 @@ def apply_op(B, m, op, st):
         m.set_administration('central', direct=False)
         st['admin'] = 'Ai'
         st['sens'] = False
-    elif op in ('D1', 'D2'):
+    elif op in ('D1', 'D2', 'D3'):
         if st.get('admin') is None:
             try:
                 m.set_dosing_regimen(1.0)
@@ -54,6 +55,8 @@ def apply_op(B, m, op, st):
             return m
         if op == 'D1':
             m.set_dosing_regimen(B.var('dose1'), start=B.var('start1'))
+        elif op == 'D3':
+            m.set_dosing_regimen(_protocol3(B))
         else:
             m.set_dosing_regimen(B.var('dose2'), start=B.var('start2'),
                                  duration=B.var('dur2'),
@@ -102,13 +105,25 @@ def apply_op(B, m, op, st):
     return m
 
 
+def _protocol3(B):
+    """an explicit protocol (two different events) instead of numbers"""
+    import chi._mechanistic_models as mmod
+    p = mmod.myokit.Protocol()
+    p.schedule(B.var('lvl3a'), B.var('start3a'), B.var('dur3a'))
+    p.schedule(B.var('lvl3b'), B.var('start3b'), B.var('dur3b'),
+               B.var('per3b'), 2)
+    return p
+
+
 def reference(B, model_name, st):
     r = fresh(model_name)
     if st.get('admin') == 'Ad':
         r.set_administration('central', direct=True)
     elif st.get('admin') == 'Ai':
         r.set_administration('central', direct=False)
-    if st.get('regimen') == 'D1':
+    if st.get('regimen') == 'D3':
+        r.set_dosing_regimen(_protocol3(B))
+    elif st.get('regimen') == 'D1':
         r.set_dosing_regimen(B.var('dose1'), start=B.var('start1'))
     elif st.get('regimen') == 'D2':
         r.set_dosing_regimen(B.var('dose2'), start=B.var('start2'),
